@@ -66,20 +66,55 @@ def te_params(rng, engine, fmt):
     return dict(kind='te', cls='det', engine=engine, fmt=fmt, n=n, unit=dt * N_steps, params=p)
 
 
-def gs_params(rng, engine, cls, fmt):
+def gs_params(rng, engine, cls, fmt, schedule=None):
+    """`schedule`: option schedules that evolve during the run (their current value is part of what a checkpoint
+    must carry): None | 'chi_int' (chi_list with integers) | 'chi_none' (chi_list whose LAST entry is None =
+    "the chi_max given at initialisation", reached only after earlier ramp steps) | 'nsc' (N_sweeps_check = 2,
+    optionally with a chi_list whose first entry is None)."""
     L = rng.choice([4, 6])
     Jz = rng.randrange(2, 9) / 4.0
+    nsc = 1
     if cls == 'det':
         m = rng.choice([2, 3, 4])
         mixer = rng.choice([None, True])
         alg = dict(trunc_params=dict(chi_max=rng.choice([3, 4, 8]), svd_min=1.0e-12), max_sweeps=m, min_sweeps=m,
                    P_tol_to_trunc=None, mixer=mixer, max_trunc_err=None)
+        if schedule is not None:
+            # ramps need room: 8 sites (exact chi 16), mixer off, fixed Lanczos tolerances
+            L = 8
+            alg['mixer'] = mixer = None
+            alg['E_tol_to_trunc'] = None
+            if schedule == 'chi_int':
+                m = rng.choice([4, 5])
+                k1 = rng.choice([1, 2])
+                alg['chi_list'] = {0: rng.choice([2, 3]), k1: rng.choice([4, 6]), k1 + rng.choice([1, 2]): rng.choice([9, 12, 16])}
+                alg['trunc_params']['chi_max'] = 16
+            elif schedule == 'chi_none':
+                m = rng.choice([5, 6])
+                k1 = rng.choice([1, 2])
+                k2 = k1 + rng.choice([1, 2])
+                alg['chi_list'] = {0: rng.choice([2, 4]), k1: rng.choice([5, 8]), k2: None}
+                alg['trunc_params']['chi_max'] = rng.choice([12, 16])
+            else:
+                nsc = 2
+                m = rng.choice([4, 6])
+                alg['N_sweeps_check'] = 2
+                if rng.random() < 0.5:
+                    alg['chi_list'] = {0: None, 2: rng.choice([4, 6]), 4: rng.choice([10, 16])}
+                alg['trunc_params']['chi_max'] = rng.choice([3, 5])
+            alg['max_sweeps'] = alg['min_sweeps'] = m
         if mixer:
             alg['mixer_params'] = dict(amplitude=1.0e-5, decay=None, disable_after=None)
     else:
         m = 12
         alg = dict(trunc_params=dict(chi_max=8, svd_min=1.0e-12), max_sweeps=m, max_E_err=MAX_E_ERR,
                    max_S_err=1.0e-4, max_trunc_err=None)
+        if schedule == 'mixer':
+            # a decaying mixer that switches itself off during the run (its state is not in resume_data by
+            # design: only the weak class applies)
+            alg['mixer'] = True
+            alg['mixer_params'] = dict(amplitude=rng.choice([1.0e-5, 1.0e-4]), decay=rng.choice([1.5, 2.0]),
+                                       disable_after=rng.choice([2, 3, 4]))
     p = dict(
         simulation_class='GroundStateSearch',
         model_class='XXZChain',
@@ -95,7 +130,16 @@ def gs_params(rng, engine, cls, fmt):
                               ['tenpy.simulations.measurement', 'm_energy_MPO']],
         log_params=dict(to_stdout=None, to_file=None),
     )
-    return dict(kind='gs', cls=cls, engine=engine, fmt=fmt, n=m, unit=1.0, params=p)
+    return dict(kind='gs', cls=cls, engine=engine, fmt=fmt, n=m // nsc, unit=float(nsc), params=p,
+                schedule=schedule)
+
+
+def fix_int_keys(params):
+    """JSON turns the integer keys of `chi_list` into strings (corpus / replay files)."""
+    cl = params.get('algorithm_params', {}).get('chi_list')
+    if isinstance(cl, dict):
+        params['algorithm_params']['chi_list'] = {int(k): v for k, v in cl.items()}
+    return params
 
 
 # ------------------------------------------------------------------------------------------------
@@ -118,6 +162,10 @@ def _summary(res, psi_ref=None):
              meas=_jsonable_meas(res.get('measurements', {})))
     if 'energy' in res:
         s['energy'] = float(np.real(res['energy']))
+    try:
+        s['last_sweep'] = int(res['sweep_stats']['sweep'][-1])
+    except Exception:
+        pass
     psi = res.get('psi')
     if psi is not None:
         s['chi'] = [int(c) for c in psi.chi]
@@ -143,7 +191,7 @@ def run_job(job):
     from tenpy.tools import hdf5_io
     d = tempfile.mkdtemp(prefix='verif-c18r-')
     cwd = os.getcwd()
-    out = {'job': {k: job[k] for k in ('kind', 'cls', 'engine', 'fmt', 'n', 'unit', 'params', 'sigint')}}
+    out = {'job': {k: job.get(k) for k in ('kind', 'cls', 'engine', 'fmt', 'n', 'unit', 'params', 'sigint', 'schedule')}}
     Sim = simulation.Simulation
     o_save = Sim.save_results
     counter = {'n': 0, 'on': False}
@@ -159,7 +207,7 @@ def run_job(job):
     try:
         os.chdir(d)
         Sim.save_results = save_results
-        params = copy.deepcopy(job['params'])
+        params = fix_int_keys(copy.deepcopy(job['params']))
         params['output_filename'] = 'plain' + ext
         counter['on'] = True
         sim = simulation.init_simulation(**params)
@@ -210,7 +258,7 @@ def run_job(job):
         # interruption through SIGINT at checkpoint `sigint` (graceful abort path), then resume from the file
         if job.get('sigint') is not None:
             at = job['sigint'] * job['unit']
-            params = copy.deepcopy(job['params'])
+            params = fix_int_keys(copy.deepcopy(job['params']))
             params['output_filename'] = 'sig' + ext
             params['save_every_x_seconds'] = None
             params['connect_algorithm_checkpoint'] = [['harness.c18_meas', 'sigint_at', {'at': at}, 50]]
@@ -298,10 +346,12 @@ def diff_det(plain, res, kind):
         out.append(('final-state-incomparable', res['overlap_error']))
     if res.get('chi') != plain.get('chi'):
         out.append(('final-state-differs', 'chi %r vs %r' % (plain.get('chi'), res.get('chi'))))
+    if res.get('last_sweep') != plain.get('last_sweep'):
+        out.append(('sweep-count-differs', '%r vs %r' % (plain.get('last_sweep'), res.get('last_sweep'))))
     return out
 
 
-def diff_conv(plain, res):
+def diff_conv(plain, res, unit=1.0):
     out = []
     if 'exception' in res:
         return [('exception.%s.%s' % (res['exception'], res['where']), res['tb'][-400:])]
@@ -315,7 +365,7 @@ def diff_conv(plain, res):
     idx = rm.get('measurement_index', [])
     if [int(round(x)) for x in idx] != list(range(len(idx))):
         out.append(('measurement-index-not-contiguous', repr(idx)))
-    if [int(round(x)) for x in tags] != list(range(len(tags))):
+    if [int(round(x / unit)) for x in tags] != list(range(len(tags))) or any(abs(x / unit - round(x / unit)) > 1e-9 for x in tags):
         out.append(('checkpoint-measured-twice-or-skipped', 'sweep tags %r' % (tags,)))
     if any(len(v) != len(idx) for v in rm.values()):
         out.append(('measurement-count-differs', repr({k: len(v) for k, v in rm.items()})))
@@ -346,7 +396,8 @@ def model_line(r, k):
                     measure_at_checkpoints='measure' in lst, prio_measure=lst.get('measure', 0),
                     prio_save=lst.get('save', -100), carry_err=carry)
     alg = job['params']['algorithm_params']
-    return dict(k='loop', kind='gs', max_sweeps=alg['max_sweeps'], min_sweeps=alg.get('min_sweeps', 1), ck=k,
+    nsc = int(alg.get('N_sweeps_check', 1))   # one iteration = nsc sweeps; the machine counts iterations
+    return dict(k='loop', kind='gs', max_sweeps=alg['max_sweeps'] // nsc, min_sweeps=alg.get('min_sweeps', 1) // nsc, ck=k,
                 errs=[], conv_at=[], measure_initial=r['measure_initial'],
                 measure_at_checkpoints='measure' in lst, prio_measure=lst.get('measure', 0),
                 prio_save=lst.get('save', -100), carry_err=True, guard_empty=bool(r.get('guard_empty')))
@@ -404,7 +455,7 @@ def evaluate(ctx, res, results, use_model=True):
     for r in results:
         job = r['job']
         base_case = dict(part='resume', kind=job['kind'], cls=job['cls'], engine=job['engine'], fmt=job['fmt'],
-                         params=job['params'])
+                         schedule=job.get('schedule'), params=job['params'])
         if 'fatal' in r:
             res.fail('correspondence', 'resume.worker-failed', r['fatal'][-600:], base_case)
             continue
@@ -428,9 +479,10 @@ def evaluate(ctx, res, results, use_model=True):
             res.note_case(dict(case, params=None, sig=repr(job['params'])), nontrivial=bool(nontriv))
             res.count('resume.engine=' + job['engine'])
             res.count('resume.class=' + job['cls'])
+            res.count('resume.schedule=%s' % job.get('schedule'))
             res.count('resume.fmt=' + job['fmt'])
             res.count('resume.checkpoint=%d' % k)
-            diffs = diff_det(plain, real, job['kind']) if job['cls'] == 'det' else diff_conv(plain, real)
+            diffs = diff_det(plain, real, job['kind']) if job['cls'] == 'det' else diff_conv(plain, real, job['unit'])
             for suffix, detail in diffs:
                 res.fail('property', signature(job['kind'], job['cls'], suffix),
                          '%s %s resumed from checkpoint %d of %d: %s' % (job['engine'], job['cls'], k, r['n_saves'] - 1, detail),
@@ -446,7 +498,7 @@ def evaluate(ctx, res, results, use_model=True):
             if 'error' in real:
                 res.fail('correspondence', 'resume.sigint-not-delivered', real['error'], case)
             else:
-                diffs = diff_det(plain, real, job['kind']) if job['cls'] == 'det' else diff_conv(plain, real)
+                diffs = diff_det(plain, real, job['kind']) if job['cls'] == 'det' else diff_conv(plain, real, job['unit'])
                 for suffix, detail in diffs:
                     res.fail('property', signature(job['kind'], job['cls'], suffix),
                              '%s %s SIGINT at checkpoint %d, resumed: %s' % (job['engine'], job['cls'], job['sigint'], detail),
@@ -474,7 +526,13 @@ def make_jobs(ctx, rng):
             j = gs_params(rng, e, 'det', rng.choice(['pkl', 'pkl', 'h5']))
             j['sigint'] = rng.randrange(1, j['n']) if rep == 0 and e == 'TwoSiteDMRGEngine' else None
             jobs.append(j)
-            j = gs_params(rng, e, 'conv', 'pkl')
+            j = gs_params(rng, e, 'conv', 'pkl', schedule=('mixer' if rep % 2 == 0 and e == 'TwoSiteDMRGEngine' else None))
+            j['sigint'] = None
+            jobs.append(j)
+        # option schedules that evolve during the run (deterministic class): every run has a chi_list with a late
+        # `None`, one with integers, one with N_sweeps_check = 2
+        for sched in ('chi_none', 'chi_int', 'nsc'):
+            j = gs_params(rng, 'TwoSiteDMRGEngine', 'det', rng.choice(['pkl', 'pkl', 'h5']), schedule=sched)
             j['sigint'] = None
             jobs.append(j)
     return jobs
